@@ -197,9 +197,12 @@ theorem routes_registered_after_replies (fe : FrontEnd) (env : Env) (t0 : Nat) (
     (hl : rs.length ≤ ks.length) :
     autoCmds (run (Cfg.repaired fe) env (init t0) (.connect rs :: ks.map .reply)).2 = rs := by
   have hne : NoConnect (ks.map Ev.reply) := by
-    intro e he rs' hc
+    intro e he
     obtain ⟨k, _, hk⟩ := List.mem_map.mp he
-    rw [← hk] at hc; cases hc
+    rw [← hk]
+    refine And.intro ?_ ?_
+    · intro hc; cases hc
+    · intro rs' hc; cases hc
   apply routes_once_per_connection fe env (init t0) (fun _ => rfl) rfl rfl rs _ hne
   cases rs with
   | nil =>
@@ -215,6 +218,50 @@ theorem routes_registered_after_replies (fe : FrontEnd) (env : Env) (t0 : Nat) (
 example : autoCmds (run (Cfg.repaired .legacy) ⟨fun _ => 0, fun _ => 1, fun _ => 0, fun _ => 0⟩ (init 5)
     [.connect [7, 8], .call .unregister 1, .reply (.response (some 403) false true), .reply .timeout,
      .reply (.undecodable true)]).2 = [7, 8] := by decide
+
+/-- **connection_loss_ends_startup.** However a connection ends — `Face.run()` returns or raises, with start-up
+    registration finished, in progress (k of n commands sent) or not yet begun — once it is gone the start-up task
+    is gone with it (provided nobody was waiting for the command lock at that moment; that case is marked
+    `unmodelled`): nothing is in flight, nothing waits, no route is left to be requested, and the call that was in
+    flight has returned `False`.  This is the hypothesis `autoActive s = false` of `routes_conserved`. -/
+theorem connection_loss_ends_startup (cfg : Cfg) (env : Env) (s : St) (hq : s.queue = []) :
+    autoActive (step cfg env s .down).1 = false ∧ WF (step cfg env s .down).1 ∧
+    (step cfg env s .down).1.free = s.free ∧ autoCmds (step cfg env s .down).2 = [] ∧
+    ∀ r, s.inflight = some r → (step cfg env s .down).2 = [.ret r (.ok false)] := by
+  rcases step_down_cases cfg env s with ⟨h, _⟩ | ⟨_, hi, he⟩ | ⟨r, _, hi, he⟩
+  · exact absurd hq h
+  · rw [he]
+    refine ⟨by simp [autoActive, hi, hq], fun _ => hq, rfl, rfl, ?_⟩
+    intro r hr; rw [hi] at hr; cases hr
+  · rw [he]
+    refine ⟨by simp [autoActive, hq], fun _ => hq, rfl, rfl, ?_⟩
+    intro r' hr; rw [hi] at hr; cases hr
+    cases r.verb <;> simp [replyRes, finish, expressOutcome]
+
+/-- **routes_once_after_any_end.** Whatever state the previous connection was in when it was lost (any history before
+    it; start-up registration finished or cut after k of n commands; by `Face.run()` returning or raising) — as long
+    as nobody was waiting for the command lock — on the NEXT connection the route registrations on the wire, those
+    waiting and those not yet requested are exactly the routes declared at that moment: nothing of the previous
+    connection suppresses or repeats a route. (The model keeps no per-connection memory of routes already sent, as
+    the code has none.  Not covered: a connection established while the start-up task of the previous one is still
+    running — `Face.run()` raised during start-up and the application reconnects before the command in flight has
+    run into its lifetime — which `step` marks `unmodelled`.) -/
+theorem routes_once_after_any_end (fe : FrontEnd) (env : Env) (s : St) (hf : s.free = []) (hq : s.queue = [])
+    (rs : List Nat) (evs : List Ev) (hne : NoConnect evs) :
+    autoCmds (run (Cfg.repaired fe) env s (.down :: .connect rs :: evs)).2
+      ++ autoOpen (run (Cfg.repaired fe) env s (.down :: .connect rs :: evs)).1 = rs := by
+  obtain ⟨ha, hw, hfr, hc, _⟩ := connection_loss_ends_startup (Cfg.repaired fe) env s hq
+  have := routes_conserved fe env (step (Cfg.repaired fe) env s .down).1 hw (by rw [hfr]; exact hf) ha rs evs hne
+  show autoCmds ((step (Cfg.repaired fe) env s .down).2 ++
+      (run (Cfg.repaired fe) env (step (Cfg.repaired fe) env s .down).1 (.connect rs :: evs)).2) ++ _ = rs
+  rw [autoCmds_append, hc, List.nil_append]
+  exact this
+
+/-- two routes; the first connection is lost when one of the two start-up commands has been sent; on the second
+    connection both are registered, once each -/
+example : autoCmds (run (Cfg.repaired .v2) ⟨fun _ => 0, fun _ => 1, fun _ => 0, fun _ => 0⟩ (init 5)
+    [.connect [7, 8], .down, .connect [7, 8], .reply (.response (some 200) true true),
+     .reply (.response (some 200) true true)]).2 = [7, 7, 8] := by decide
 
 /-- **response_roundtrip.** `parse_response` returns the fields of the decoded ControlResponse: status code,
     status text and every ControlParameters field of the body (`None` for a field, or a body, that is absent). -/
